@@ -83,18 +83,43 @@ Theorem C18_walk_positions : forall (konsole : bool) (l : layout) (fuel : nat),
 Proof. exact walk_positions_lemma. Qed.
 Print Assumptions C18_walk_positions.
 
-(** For every screen height, terminal identity, image geometry ([lines]) and every
-    sequence of redraws and clear()s whose redraws are well-formed (W): after each redraw
-    the placements on the terminal are exactly the image lines of the view set just
-    drawn — none left over from earlier canvases, none missing. *)
+(** For every screen height, terminal identity, image geometry ([lines]) and EVERY sequence
+    of redraws, clear()s and calls of the public clear_images(widgets..., now=...) (all images
+    or any widgets; immediately = written at once to the terminal, or queued = emitted with
+    the next flush, i.e. at the next draw_screen) in which every step is well-formed in the
+    state it meets ([ops_wf]: (W) for redraws; the arguments of clear_images are live widgets
+    consistent with the views on screen; and the COUNT hypothesis: between two writes of an
+    image line's row at most two changes of disguise hit it, this redraw's own included):
+    after each redraw nothing is left in the output queue and the placements on the terminal
+    are exactly the image lines of the view set just drawn - none left over from earlier
+    canvases, none missing.
+    The count hypothesis holds by itself when at most one clear_images() call with distinct
+    arguments is made between two redraws ([C18_count_ok_*]); it cannot be dropped: the
+    disguise has three states, and three changes restore a line's bytes
+    (proofs/ScreenExamples.v [no_ghosts_needs_count_hypothesis], also observed on the real
+    code: three clear_images() between two redraws and the images are gone). *)
 Theorem C18_no_ghosts :
   forall (H : nat) (konsole : bool) (lines : view -> list (Z * Z * Z)) (kittyw : nat -> bool)
          (ops : list sop) (V : list view) (base : Z -> Z),
   ops_wf H konsole lines kittyw world_init (ops ++ [ORedraw V base]) ->
-  forall p, In p (t_plcs (w_term (run H konsole true lines (ops ++ [ORedraw V base]) world_init)))
-            <-> In p (plcs_of lines V).
+  w_queue (run H konsole true lines (ops ++ [ORedraw V base]) world_init) = []
+  /\ forall p, In p (t_plcs (w_term (run H konsole true lines (ops ++ [ORedraw V base]) world_init)))
+               <-> In p (plcs_of lines V).
 Proof. exact no_ghosts_lemma. Qed.
 Print Assumptions C18_no_ghosts.
+
+Theorem C18_count_ok_after_redraw :
+  forall (H : nat) (konsole : bool) (lines : view -> list (Z * Z * Z)) w0 V0 base0 V,
+  count_ok (step H konsole true lines w0 (ORedraw V0 base0)) V.
+Proof. exact count_ok_after_redraw. Qed.
+Print Assumptions C18_count_ok_after_redraw.
+
+Theorem C18_count_ok_after_one_api :
+  forall (H : nat) (konsole : bool) (lines : view -> list (Z * Z * Z)) w0 V0 base0 ws now V,
+  NoDup (map fst (filter (fun x : nat * wkind => is_kitty (snd x)) ws)) ->
+  count_ok (step H konsole true lines (step H konsole true lines w0 (ORedraw V0 base0)) (OApi ws now)) V.
+Proof. exact count_ok_after_one_api. Qed.
+Print Assumptions C18_count_ok_after_one_api.
 
 (** The stream of a draw_screen, whatever the base class' draw wrote before it returned
     or raised (any [inner] without markers): BEGIN, the deletes, [inner], END. *)
@@ -128,11 +153,12 @@ Theorem C18_cleared_on_start_stop_clear : forall konsole inner base_clears s t,
 Proof. exact cleared_on_start_stop_clear_lemma. Qed.
 Print Assumptions C18_cleared_on_start_stop_clear.
 
-(** In every reachable state of the world, clear() leaves no placement (and the redraw
-    that follows re-establishes them: [C18_no_ghosts] covers sequences with clear()s). *)
+(** In every reachable state of the world, once clear()'s queued delete-all is flushed no
+    placement is left (and the redraw that follows re-establishes them: [C18_no_ghosts]
+    covers sequences with clear()s). *)
 Theorem C18_cleared_after_clear :
   forall (H : nat) (konsole : bool) (lines : view -> list (Z * Z * Z)) (kittyw : nat -> bool) (ops : list sop),
   ops_wf H konsole lines kittyw world_init ops ->
-  t_plcs (w_term (run H konsole true lines (ops ++ [OClear]) world_init)) = [].
+  t_plcs (flushed konsole (run H konsole true lines (ops ++ [OClear]) world_init)) = [].
 Proof. exact cleared_after_clear_lemma. Qed.
 Print Assumptions C18_cleared_after_clear.
